@@ -657,7 +657,7 @@ func (w *pworld) scenario(id string, thorough bool) {
 			q := CalculateQuorum(len(curSet))
 			perm := r.Perm(len(curSet))
 			cnt := q
-			kind := r.Intn(9)
+			kind := r.Intn(13)
 			if kind == 0 && q > 1 {
 				cnt = q - 1
 			}
@@ -690,12 +690,38 @@ func (w *pworld) scenario(id string, thorough bool) {
 				b[6+1+r.Intn(64)] ^= 4 // corrupt first signature
 			case 7:
 				b[4] ^= 1 // other set index in the header: still verifies against the current set
+			case 9:
+				if len(idx) >= 2 { // the two highest indices out of order
+					idx[len(idx)-1], idx[len(idx)-2] = idx[len(idx)-2], idx[len(idx)-1]
+					b = w.signedVAA(base, g, ks, idx)
+				}
+			case 10:
+				// one guardian (preferably a high index) repeated quorum-many times
+				one := len(ks) - 1 - r.Intn(1+len(ks)/4)
+				rep := make([]int, q)
+				for i := range rep {
+					rep[i] = one
+				}
+				b = w.signedVAA(base, g, ks, rep)
+			case 11:
+				// a valid quorum with the last signature duplicated
+				b = w.signedVAA(base, g, ks, append(append([]int{}, idx...), idx[len(idx)-1]))
+			case 12:
+				// quorum-1 distinct signers plus one of them again
+				if len(idx) >= 2 {
+					d2 := append([]int{}, idx[:len(idx)-1]...)
+					d2 = append(d2, d2[len(d2)-1])
+					b = w.signedVAA(base, g, ks, d2)
+				}
 			}
 			do(w.inbound(b))
 		case c < 88: // guardian-set update
 			if w.gs.Index < 1<<31 {
 				ns := append([]pkey{}, curSet...)
-				switch r.Intn(3) {
+				switch r.Intn(4) {
+				case 3:
+					// full rotation: a fresh set of another size, sharing few or no keys with the old one
+					ns = w.randKeys(1 + r.Intn(6))
 				case 0:
 					ns[r.Intn(len(ns))] = outsiders[r.Intn(2)]
 				case 1:
@@ -835,6 +861,60 @@ func (w *pworld) permFamily(id string, n int) {
 	}
 }
 
+// soak (C14): a pending chain message and a pending injected VAA that never reach quorum, ticked every ~5 minutes.
+// quick: 14 ticks (past the 10-retry mark); thorough: the whole 14400-retry budget, with the message re-delivered after
+// every retry as a watcher honouring the re-observation request would do.
+func (w *pworld) soak(id string, ticks int, redeliver bool) {
+	r := w.r
+	set := w.randKeys(4)
+	w.reset(id, set[0])
+	gs := &common.GuardianSet{Index: 1}
+	for _, x := range set {
+		gs.Keys = append(gs.Keys, x.addr)
+	}
+	if !w.setUpdate(gs) {
+		return
+	}
+	var emitter vaa.Address
+	r.Read(emitter[:])
+	k := w.randMsg(emitter, 1)
+	k.Payload = []byte{1, 2, 3}
+	if !w.message(k) {
+		return
+	}
+	d := w.mkVAA(k, gs.Index).SigningMsg().Bytes()
+	if !w.observation(w.obsFor(set[0], d)) {
+		return
+	}
+	iv := w.mkVAA(w.randMsg(pgovEmitter, 5), 1)
+	iv.EmitterChain = pgovChain
+	iv.Payload = []byte{9}
+	if !w.injection(iv) {
+		return
+	}
+	// signatures for a digest nobody observed locally
+	park := make([]byte, 32)
+	r.Read(park)
+	if !w.observation(w.obsFor(set[1], park)) {
+		return
+	}
+	w.advance(31 * time.Second)
+	if !w.cleanup(preqCap) {
+		return
+	}
+	for i := 0; i < ticks; i++ {
+		w.advance(300 * time.Second)
+		if !w.cleanup(preqCap) {
+			return
+		}
+		if redeliver {
+			if !w.message(k) {
+				return
+			}
+		}
+	}
+}
+
 // subset family (C01/C02): every guardian-set size up to nmax, every position of the own key, every subset of the
 // other guardians signing; observations delivered in random order, own loopback at a random position.
 func (w *pworld) subsetFamily(id string, nmax int) {
@@ -941,6 +1021,12 @@ func TestVerifProcessor(t *testing.T) {
 	}
 	for i := 0; i < nperm; i++ {
 		w.permFamily(fmt.Sprintf("p%d", i), 1+w.r.Intn(5))
+	}
+	w.soak("k0", 14, false)
+	w.soak("k1", 14, true)
+	if thorough {
+		w.soak("k2", 14420, false)
+		w.soak("k3", 14420, true)
 	}
 	if thorough {
 		w.subsetFamily("q", 6)
